@@ -38,6 +38,15 @@ class LLMParams:
     def __enter__(self):
         # Here we can access and modify the global language model parameters.
         self.original_params = {}
+        try:
+            self._set_params()
+        except Exception:
+            # The body of the `with` statement is not entered, so what was altered
+            # up to this point would otherwise stay altered.
+            self.__exit__(None, None, None)
+            raise
+
+    def _set_params(self):
         for param, value in self.altered_params.items():
             if hasattr(self.llm, param):
                 self.original_params[param] = getattr(self.llm, param)
